@@ -33,6 +33,9 @@ func src(n ast.Node) string {
 	return strings.Join(strings.Fields(b.String()), " ")
 }
 
+var timeUnits = map[string]string{"time.Nanosecond": "1", "time.Microsecond": "1000", "time.Millisecond": "1000000",
+	"time.Second": "1000000000", "time.Minute": "60000000000", "time.Hour": "3600000000000"}
+
 var fileCache = map[string]*ast.File{}
 
 func parseFile(path string) *ast.File {
@@ -144,6 +147,10 @@ func (t *tr) expr(e ast.Expr) string {
 		case token.STRING:
 			return x.Value
 		}
+	case *ast.SelectorExpr:
+		if u, ok := timeUnits[s]; ok {
+			return "(" + u + " : Int)"
+		}
 	case *ast.ParenExpr:
 		return "(" + t.expr(x.X) + ")"
 	case *ast.UnaryExpr:
@@ -187,6 +194,20 @@ func (t *tr) expr(e ast.Expr) string {
 			return "(" + a + " || " + b + ")"
 		}
 	case *ast.CallExpr:
+		switch src(x.Fun) {
+		case "time.Now":
+			if len(x.Args) == 0 {
+				return "now_"
+			}
+		case "time.Until":
+			if len(x.Args) == 1 {
+				return "(I64.sub " + t.expr(x.Args[0]) + " now_)"
+			}
+		case "time.Since":
+			if len(x.Args) == 1 {
+				return "(I64.sub now_ " + t.expr(x.Args[0]) + ")"
+			}
+		}
 		// conversions
 		switch src(x.Fun) {
 		case "int64", "int", "time.Duration":
